@@ -12,6 +12,7 @@ pub mod c17;
 pub mod c18;
 pub mod c19;
 pub mod c20;
+pub mod grid;
 pub mod lang;
 
 pub struct Case {
@@ -79,6 +80,7 @@ pub fn generate(prop: &str, tier: &str, g: &mut Gen) {
         "C03" => lang::generate_c03(g, thorough),
         "C04" => c04::generate(g, thorough),
         "C07" => c07::generate(g, thorough),
+        "C08" => grid::generate_c08(g, thorough),
         "C11" => c11::generate(g, thorough),
         _ => {}
     }
